@@ -15,7 +15,7 @@ TRUSTED = [
 ]
 
 # finding classes of the SPARQL layer (k_class of Rdf/Run.v) -> finding ids of known.d/C13.json
-KIDS = {1: "C13-S1", 2: "C13-S2", 3: "C13-S3", 4: "C13-S4", 5: "C13-S5", 6: "C13-S6", 7: "C13-S7", 8: "C13-S8"}
+KIDS = {2: "C13-S2", 3: "C13-S3", 4: "C13-S4", 5: "C13-S5", 6: "C13-S6", 8: "C13-S8"}   # S1, S7, S9 are repaired
 KID_UPDATE = "C13-S10"
 
 
